@@ -499,11 +499,13 @@ def _cmp(a, b, rtol, floor):
         return True, ""
     if isinstance(a, (str, bool, type(None))) or isinstance(b, (str, bool, type(None))):
         return (a == b), "%r != %r" % (a, b)
-    if isinstance(a, (list, tuple)) and a and not isinstance(a[0], (int, float, np.floating, np.integer, complex)):
+    if isinstance(a, np.ndarray) and a.dtype == object:
+        a = list(a)
+    if isinstance(b, np.ndarray) and b.dtype == object:
+        b = list(b)
+    if isinstance(a, (list, tuple)) and isinstance(b, (list, tuple)) and len(a) and not isinstance(a[0], (int, float, np.floating, np.integer, complex)):
         if len(a) != len(b):
             return False, "length %d != %d" % (len(a), len(b))
-        if a == b:
-            return True, ""
         for x, y in zip(a, b):
             ok, d = _cmp(x, y, rtol, floor)
             if not ok:
@@ -513,7 +515,10 @@ def _cmp(a, b, rtol, floor):
         A = np.asarray(a)
         B = np.asarray(b)
     except Exception:
-        return (a == b), "%r != %r" % (a, b)
+        try:
+            return bool(a == b), "%r != %r" % (a, b)
+        except Exception:
+            return repr(a) == repr(b), "%r != %r" % (a, b)
     if A.dtype.kind in "bSUO" or B.dtype.kind in "bSUO":
         same = A.shape == B.shape and bool(np.all(A == B))
         return same, "%s != %s" % (A.tolist(), B.tolist())
